@@ -46,7 +46,7 @@ class Contracts:
     @@ bodypre FN                   ghost text inserted right after the opening brace of FN's body
     """
 
-    def __init__(self, path):
+    def __init__(self, path, ftag=''):
         self.path = path
         self.prelude = []
         self.postlude = []
@@ -68,7 +68,7 @@ class Contracts:
         for raw in open(path, encoding='utf-8').read().split('\n'):
             m = re.match(r'@@\s*include\s+(\S+)', raw)
             if m:
-                inc = os.path.join(os.path.dirname(path), m.group(1))
+                inc = os.path.join(os.path.dirname(path), m.group(1).replace('$FT', ftag))
                 self.includes.append(inc)
                 lines += [l for l in open(inc, encoding='utf-8').read().split('\n')]
             else:
@@ -508,7 +508,7 @@ verus! {
 def extract(unit, repo, out_path, features=None, focus=None):
     features = features or ALL_FEATURES
     ud = unit_def(unit)
-    con = Contracts(ud['contracts'])
+    con = Contracts(ud['contracts'], '' if 'eval_i64' in features else '.noi64')
     log = {}
     rw = Rewriter(log)
     sha = {}
@@ -597,6 +597,8 @@ def unit_rewrites(ud, rel, s, rw):
         # T8: float constants without a Verus spec
         s = rw.literal('T8', s, 'std::f64::consts::PI', 'c_pi()')
         s = rw.literal('T8', s, 'std::f64::consts::E', 'c_e()')
+        s = rw.literal('T8', s, 'Decimal::PI', 'dec_c_pi()')
+        s = rw.literal('T8', s, 'Decimal::E', 'dec_c_e()')
     if rel.endswith('/ast.rs') and part in ('core', 'ast'):
         # T12: the sort idiom -> helper with an assumed contract (body = the original expression)
         s = rw.regex('T12', s, r'(\w+)\.sort_by\(\|a, b\| a\.partial_cmp\(b\)\.unwrap\(\)\);', r'verif_sort(&mut \1);')
